@@ -34,6 +34,7 @@ MIN_REACH = {
     "df_rows_checked": {"quick": 400, "thorough": 5000},
     "calls_logged": {"quick": 3000, "thorough": 30000},
     "second_runs_on_same_runner": {"quick": 15, "thorough": 300},
+    "varying_coordinate_labels_selected": {"quick": 300, "thorough": 5000},
 }
 TIME_BUDGET = {"quick": 400, "thorough": 3400}
 
@@ -106,6 +107,12 @@ def cases(ctx):
     for i in range(n):
         pool = ENTRIES_DF if i % 4 == 3 else ENTRIES_DS
         yield _gen(rng, pool[(i // 4) % len(pool)] if i % 4 != 3 else pool[(i // 4) % len(pool)])
+    # functions returning labelled data whose OWN coordinate depends on the arguments (a frequency axis scaled by a
+    # parameter...): every number must still be found under the labels its run gave it
+    for i in range(ctx.pick(60, 900)):
+        c = _gen(rng, ["combo_to_ds", "case_to_ds", "runner_combos", "runner_cases", "label_combos"][i % 5])
+        c["varying"] = rng.choice(["datasetvc:3", "datasetvc:2", "dataarrayvc:3"])
+        yield c
     # to_df x shuffle on purpose (row/result pairing under a permutation)
     for i in range(ctx.pick(40, 400)):
         c = _gen(rng, ENTRIES_DF[i % len(ENTRIES_DF)])
@@ -138,8 +145,86 @@ def _spell_var_dims(rng_seed, outs, how):
     return {k: (v[0] if len(v) == 1 else list(v)) for k, v in nonempty.items()}
 
 
+def run_varying(ctx, case):
+    """Labelled returns with argument-dependent internal coordinates: judged label-wise."""
+    import xyzpy
+    entry = case["entry"]
+    kind = case["varying"]
+    use_cases = "case" in entry
+    loglist = []
+    fn = probe.Probe(kind, loglist=loglist)
+    sig = {"api": entry, "xobj": "varying-coords", "kind": kind.split(":")[0]}
+    if use_cases:
+        names = list(case["names"])
+        cs = [dict(c) for c in case["cases"]]
+        subg = [(a, list(v)) for a, v in (case["sub"] or [])]
+        requested = [{**c, **sp} for c in cs for sp in (list(refmodel.grid_points(subg)) if subg else [{}])]
+        combos_arg = gens.spell_combos(subg, "dict") if subg else None
+    else:
+        combos = [(a, list(v)) for a, v in case["combos"]]
+        requested = list(refmodel.grid_points(combos))
+    opts = {"verbosity": 0}
+    if case["shuffle"] is not False:
+        opts["shuffle"] = case["shuffle"]
+    try:
+        with quiet():
+            if entry == "combo_to_ds":
+                ds = xyzpy.combo_runner_to_ds(fn, gens.spell_combos(combos, case["combo_spelling"]), var_names=None, **opts)
+            elif entry == "case_to_ds":
+                ds = xyzpy.case_runner_to_ds(fn, None, cs, var_names=None, combos=combos_arg, **opts)
+            elif entry == "runner_combos":
+                ds = xyzpy.Runner(fn, var_names=None).run_combos(gens.spell_combos(combos, case["combo_spelling"]), **opts)
+            elif entry == "runner_cases":
+                # (run_cases forwards to case_runner_to_ds(parse=False): sub-grids in parsed form)
+                ds = xyzpy.Runner(fn, var_names=None).run_cases(cs, **({"combos": tuple((a, list(v)) for a, v in subg)} if subg else {}), **opts)
+            else:
+                ds = xyzpy.label(var_names=None)(fn).run_combos(gens.spell_combos(combos, case["combo_spelling"]), **opts)
+    except Exception as e:
+        ctx.violation(case, "%s raised %r for a function returning data with argument-dependent coordinates" % (entry, e),
+                      dict(sig, oracle="no-exception", **exc_sig(e)))
+        ctx.observe(case, nontrivial=False)
+        return
+    import xarray as xr
+    if isinstance(ds, xr.DataArray):
+        ds = ds.to_dataset(name=ds.name or "y")
+    bad = None
+    nsel = 0
+    for p in requested:
+        v = probe.make(kind, p)
+        own = v["t"].values.tolist()
+        try:
+            at = ds.sel(p)
+            for j, lab in enumerate(own):
+                got = at["y"].sel(t=lab).values.item()
+                nsel += 1
+                if refmodel.deep_eq(got, float(v.values[j] if kind.startswith("dataarray") else v["y"].values[j])):
+                    bad = "ds.sel(%s, t=%r)['y'] = %r is not the number the function returned under that label (%r)" % (
+                        p, lab, got, float(v.values[j] if kind.startswith("dataarray") else v["y"].values[j]))
+                    break
+            if bad:
+                break
+            for lab in ds["t"].values.tolist():
+                if lab not in own and not refmodel.is_null_leaf(at["y"].sel(t=lab).values.item()):
+                    bad = "ds.sel(%s, t=%r)['y'] holds data although that run returned nothing under this label" % (p, lab)
+                    break
+            if not kind.startswith("dataarray") and refmodel.deep_eq(at["x"].values.item(), float(v["x"])):
+                bad = "ds.sel(%s)['x'] is not what the function returned" % (p,)
+        except Exception as e:
+            bad = "selecting %s by label failed: %r" % (p, e)
+        if bad:
+            break
+    ctx.count("varying_coordinate_labels_selected", nsel)
+    ctx.count("calls_logged", len(loglist))
+    if bad:
+        ctx.violation(case, bad, dict(sig, oracle="ds-labelling"))
+    ctx.observe(case, key=("varying", entry, kind, len(requested), bool(case["shuffle"]), case.get("perm_seed")),
+                nontrivial=len(requested) >= 2, info={"t": ds["t"].values.tolist() if "t" in ds.coords else None})
+
+
 def run_case(ctx, case):
     import xyzpy
+    if case.get("varying"):
+        return run_varying(ctx, case)
     entry = case["entry"]
     is_df = entry.endswith("_df")
     use_cases = "case" in entry
